@@ -176,6 +176,14 @@ def own_streams():
     return sys.stdout is _swapped[-1][1] and sys.stderr is _swapped[-1][2]
 
 
+def _release_resources(idx):
+    _cannot_release(idx)
+
+
+def _cannot_release(idx):
+    raise NotImplementedError("the resources of layer %d cannot be released" % idx)
+
+
 def make_hooks(idx, spec):
     hooks = {}
     if spec["setUp"]:
@@ -220,6 +228,10 @@ def make_hooks(idx, spec):
             if code == 1:
                 raise_styled(spec.get("excStyle"), LayerError, "tearDown of layer %d fails" % idx, hook="tearDown")
             if code == 2:
+                if idx % 2:
+                    # "tear-down not supported" signalled from code the hook calls (a helper, an abstract method of
+                    # a base class, super().tearDown()) - NotImplementedError is NotImplementedError
+                    _release_resources(idx)
                 raise NotImplementedError
         hooks["tearDown"] = tearDown
     if spec["testSetUp"]:
@@ -408,9 +420,16 @@ def do_part(test, ph, part):
         # time this phase runs in this process
         if _attempt("once", (test.spec["id"], str(ph))) > 0:
             exc = None
-    if exc in ("exit0", "exit3", "sigkill", "segv"):
+    if exc in ("exit0", "exit3", "sigkill", "segv", "linger"):
         trace({"ev": "die", "how": exc})
         sys.stdout.flush()
+        if exc == "linger":
+            # the process gives up its standard streams (a test that daemonises in place) and lives on: for the parent
+            # both pipes are at their end although nobody has exited
+            os.close(1)
+            os.close(2)
+            time.sleep(150)
+            os._exit(0)
         if exc == "exit0":
             os._exit(0)
         if exc == "exit3":
@@ -607,6 +626,10 @@ def fail_import(modname, where):
     if where == "import" and WORLD["modules"][modname].get("needsHelper"):
         # code the tests use that is importable only through the path the wrapper script added
         import whelper  # noqa: F401
+    if where == "import" and WORLD["modules"][modname].get("importErrorInChild") and "--resume-layer" in sys.argv:
+        # a module that can be imported in the main process only (it looks at the terminal, at an environment the
+        # layer subprocess does not have, ...)
+        raise ImportError("module %s cannot be imported in a layer subprocess" % modname)
     kind = WORLD["modules"][modname].get("importError")
     if not kind:
         return
